@@ -429,9 +429,8 @@ func (el *EventList) uncompress(c *compressedEventList) error {
 			return errors.New("event list contains an empty value")
 		}
 	}
-	if len(c.E) != 0 {
-		el.Events = make([]*Event, len(c.E))
-	}
+	// (also when there are none: the list may have been used before)
+	el.Events = make([]*Event, len(c.E))
 	if el.ComputeProduct {
 		el.product = big.NewInt(1)
 	}
